@@ -275,6 +275,10 @@ MUTATORS = {
 EDITS = [_edit_vertex, _edit_scale, _edit_faces, _reassign_v, _reassign_f, _edit_ufunc]
 
 
+KEPT_HINT = ["face_normals", "vertex_normals", "edges", "edges_sorted", "edges_unique", "edges_unique_inverse", "faces_unique_edges",
+             "face_adjacency", "face_adjacency_edges", "face_adjacency_unshared", "body_count", "euler_number", "edges_sparse", "edges_face"]
+
+
 def all_keys(trimesh):
     m = trimesh.creation.box()
     props = [n for n, _ in inspect.getmembers(type(m), lambda x: isinstance(x, property))]
@@ -312,11 +316,32 @@ def probe_keep(trimesh, keys):
     m.vertices[0] += 1.0
     c = pycopy.copy(m)
     copy_verifies = "area" not in c._cache.cache
-    return keep, copy_verifies
+    # which mutators trust a cache that an in-place edit has silently invalidated?
+    locked = []
+    for mu, variants in MUTATORS.items():
+        for f in variants:
+            m = build(trimesh, sd["box_over"])
+            for k in ("face_normals", "vertex_normals", "edges", "face_adjacency", "area"):
+                getattr(m, k)
+            m.vertices[0] += [0.3, 0.7, 0.2]
+            try:
+                f(m)
+            except BaseException:
+                continue
+            trusted = set(m._cache.cache.keys()) if m._cache.id_current == m._data.__hash__() else set()
+            if trusted & {"vertex_normals", "face_normals", "area"}:
+                # a value computed before the edit survived and is trusted: only legitimate if it was
+                # recomputed by the mutator itself, which none of these are for an edited vertex
+                fr = fresh_of(trimesh, m)
+                for k in trusted & {"vertex_normals", "face_normals", "area"}:
+                    if not np.allclose(np.asarray(m._cache.cache[k], dtype=float), np.asarray(getattr(fr, k), dtype=float), atol=1e-9):
+                        locked.append(mu)
+                        break
+    return keep, copy_verifies, sorted(set(locked))
 
 
 # ------------------------------------------------------------------ TLC side
-def gen_module(classes, mutators, keep_c, valid_c, side_c, copy_verifies, depth):
+def gen_module(classes, mutators, keep_c, valid_c, side_c, copy_verifies, depth, locked=()):
     def sset(xs):
         return "{" + ", ".join('"%s"' % x for x in sorted(xs)) + "}"
 
@@ -331,13 +356,14 @@ def gen_module(classes, mutators, keep_c, valid_c, side_c, copy_verifies, depth)
         "KeepDef == " + fn("MutDef", keep_c),
         "ValidDef == " + fn("MutDef", valid_c),
         "SideDef == " + fn("KeysDef", side_c),
+        "LockedDef == " + sset(locked),
         "====", ""])
 
 
 def mc_cfg(depth, copy_verifies, invs, view=True):
     return "\n".join([
         "CONSTANTS", "  Keys <- KeysDef", "  Mutators <- MutDef", "  Keep <- KeepDef", "  Valid <- ValidDef",
-        "  Side <- SideDef", "  CopyVerifies = %s" % ("TRUE" if copy_verifies else "FALSE"),
+        "  Side <- SideDef", "  Locked <- LockedDef", "  CopyVerifies = %s" % ("TRUE" if copy_verifies else "FALSE"),
         "  MaxDepth = %d" % depth, "SPECIFICATION Spec", "VIEW View" if view else "",
     ] + ["INVARIANT " + i for i in invs] + ["CHECK_DEADLOCK FALSE", ""])
 
@@ -492,7 +518,10 @@ def _pair_chunk(args):
                     out.append({"seed_mesh": sname, "steps": steps, "mismatch": bad})
                     continue
         try:
-            if mu == "edit":
+            if mu.startswith("edit+"):
+                EDITS[vi[0]](m)
+                MUTATORS[mu[5:]][vi[1]](m)
+            elif mu == "edit":
                 EDITS[vi](m)
             elif mu == "copy_cache":
                 m = pycopy.copy(m) if vi else m.copy(include_cache=True)
@@ -500,9 +529,17 @@ def _pair_chunk(args):
                 MUTATORS[mu][vi](m)
         except BaseException:
             continue
-        steps.append("mutate %s[%d]" % (mu, vi))
+        steps.append("mutate %s[%s]" % (mu, vi))
         # read the key read before first (the typical stale read), then everything
-        order = ([k1] if k1 not in (None, "*") else []) + [k for k in allkeys if k != k1]
+        if k1 in (None, "*") or len(allkeys) < 40:
+            order = [k for k in allkeys]
+        else:
+            # the key read before first (the typical stale read), the keys the library keeps across
+            # mutators, and a rotating dozen of the others (all keys are read when k1 is None or "*")
+            rot = (hash((sname, k1, mu, str(vi))) % 9973)
+            rest = [k for k in allkeys if k != k1]
+            order = [k1] + [k for k in KEPT_HINT if k in rest] + [rest[(rot + 7 * i) % len(rest)] for i in range(12)]
+            order = list(dict.fromkeys(order))
         for k in order:
             n += 1
             bad = compare(trimesh, m, k)
@@ -517,7 +554,7 @@ def main(argv):
     V = Verdict(PROP, tier)
     trimesh = import_trimesh()
     keys = all_keys(trimesh)
-    keep, copy_verifies = probe_keep(trimesh, keys)
+    keep, copy_verifies, locked = probe_keep(trimesh, keys)
     mutators = sorted(MUTATORS)
     kept_keys = sorted({k for v in keep.values() for k in v})
     valid = ask_valid(mutators, kept_keys)
@@ -535,7 +572,7 @@ def main(argv):
     intended_keep = {m: [c for c in keep_c[m] if c in valid_c[m]] for m in mutators}
     side_c = {c: [] for c in classes}
     predictions = sorted((m, k) for m in mutators for k in keep[m] if k not in valid.get(m, ()))
-    cov = {"tlc_runs": [], "observed_keep": keep, "copy_verifies_source_cache": copy_verifies,
+    cov = {"tlc_runs": [], "observed_keep": keep, "copy_verifies_source_cache": copy_verifies, "mutators_trusting_unverified_cache": locked,
            "predicted_stale_pairs": predictions, "key_classes": {c: len(ks) for c, ks in classes.items()}}
     states = trans = 0
 
@@ -549,22 +586,27 @@ def main(argv):
     dm = 4 if tier == "quick" else 5
     r = tlc.must(tlc.run(d, "MC_MeshCache", mc_cfg(dm, True, ["NoStaleRead", "EntriesAreForIdcur", "IdNotAhead"]), timeout=1500), "intended")
     note(f"intended design depth {dm}", r)
-    d2 = tlc.prepare("c01/asbuilt", files={"MC_MeshCache.tla": gen_module(classes, mutators, keep_c, valid_c, side_c, copy_verifies, 0)})
+    d2 = tlc.prepare("c01/asbuilt", files={"MC_MeshCache.tla": gen_module(classes, mutators, keep_c, valid_c, side_c, copy_verifies, 0, locked)})
     r = tlc.run(d2, "MC_MeshCache", mc_cfg(dm, copy_verifies, ["NoStaleRead"]), timeout=1500)
     note(f"design as observed on this tree depth {dm}", r)
     if r.error and r.error != "timeout" and not r.violated:
         raise MachineryError("as-observed model failed: " + str(r.error))
     cov["as_observed_model_NoStaleRead"] = "violated (predicted findings exist)" if r.violated else "holds"
-    if bool(r.violated) != bool(predictions or not copy_verifies):
+    if bool(r.violated) != bool(predictions or not copy_verifies or (locked and any(keep_c[m] for m in locked))):
         raise MachineryError("TLC verdict on the observed design disagrees with the predicted pairs")
     # spec self-test: copying without verifying must be caught by TLC
     r = tlc.run(d, "MC_MeshCache", mc_cfg(4, False, ["NoStaleRead"]), timeout=600)
     if r.violated != "NoStaleRead":
         raise MachineryError("spec self-test: CopyVerifies=FALSE not detected")
+    some = [m for m in mutators if intended_keep[m]][:1]
+    d4 = tlc.prepare("c01/selftest", files={"MC_MeshCache.tla": gen_module(classes, mutators, intended_keep, valid_c, side_c, True, 0, some)})
+    r = tlc.run(d4, "MC_MeshCache", mc_cfg(4, True, ["NoStaleRead"]), timeout=600)
+    if r.violated != "NoStaleRead":
+        raise MachineryError("spec self-test: a mutator working under the lock without verifying was not detected")
 
     # histories emitted by TLC at class level
     de = 3 if tier == "quick" else 4
-    d3 = tlc.prepare("c01/emit", files={"MC_MeshCache.tla": gen_module(classes, mutators, keep_c, valid_c, side_c, copy_verifies, 0)})
+    d3 = tlc.prepare("c01/emit", files={"MC_MeshCache.tla": gen_module(classes, mutators, keep_c, valid_c, side_c, copy_verifies, 0, locked)})
     r = tlc.must(tlc.run(d3, "MC_MeshCache", mc_cfg(de, copy_verifies, ["EmitLeaf"], view=False), workers=1, timeout=1500), "emit")
     note(f"emit class-level histories depth {de}", r)
     hists = r.printed
@@ -595,6 +637,15 @@ def main(argv):
             for vi in range(nv):
                 for k1 in befores:
                     pair_work.append((sname, k1, mu, vi, keys))
+    # (kept key read before) ; in-place user edit ; every concrete mutator ; reads
+    for sname in sd_names[:1] + ["strip_dup"]:
+        for mu in mutators:
+            for vi in range(len(MUTATORS[mu])):
+                for ei in range(len(EDITS)):
+                    # everything read before, each edit route; kept keys alone with one edit route
+                    for k1 in ["*"] + (kept_keys if ei == (vi % len(EDITS)) and tier == "thorough" else
+                                       ["face_normals", "vertex_normals"] if ei == (vi % len(EDITS)) else []):
+                        pair_work.append((sname, k1, "edit+" + mu, (ei, vi), kept_keys + ["area", "bounds", "volume", "face_adjacency_angles"]))
     res2 = pmap(_pair_chunk, pair_work, chunk=8)
     fails += [f for x in res2 for f in x[0]]
     nread += sum(x[1] for x in res2)
